@@ -7,3 +7,11 @@ func foo(a int) int { return -12 }
 
 //go:noinline
 func Foo(a int) int { return foo(a) }
+
+type keeper struct{ v int }
+
+//go:noinline
+func (k *keeper) peek(a int) int { return -22 - k.v*0 }
+
+//go:noinline
+func Peek(a int) int { return (&keeper{}).peek(a) }
